@@ -59,6 +59,7 @@ def single_ops(x, s, N, tier):
                 ops.append(('insn %s %d %d s%d' % (x, p, n, i), 'insn-alias'))
         for n in (0, 1, 2, 4):
             ops.append(('insr %s %d fw %s' % (x, p, vals(60, n)), 'insr-fw'))
+            ops.append(('insr %s %d ra %s' % (x, p, vals(60, n)), 'insr-ra'))
     for n in (0, 1, 3):
         ops.append(('insr %s %d in %s' % (x, s, vals(60, n)), 'insr-in-end'))
     # single-pass range inserted mid-sequence: buffered in a temporary container (which spills to the heap beyond N)
@@ -84,8 +85,10 @@ def single_ops(x, s, N, tier):
         ops.append(('rsv %s %d' % (x, n), 'rsv'))
         ops.append(('asn %s %d 56' % (x, n), 'asn'))
         ops.append(('asr %s fw %s' % (x, vals(70, n)), 'asr-fw'))
+        ops.append(('asr %s ra %s' % (x, vals(70, n)), 'asr-ra'))
         ops.append(('asr %s in %s' % (x, vals(70, n)), 'asr-in'))
         ops.append(('app %s fw %s' % (x, vals(70, n)), 'app-fw'))
+        ops.append(('app %s ra %s' % (x, vals(70, n)), 'app-ra'))
         ops.append(('app %s in %s' % (x, vals(70, n)), 'app-in'))
     ops.append(('stf %s' % x, 'stf'))
     ops.append(('at %s %d' % (x, s), 'at-oor'))
@@ -113,7 +116,8 @@ def ctor_cases(N, M, tier):
     for x, cap in (('a', N), ('c', M)):
         for n in sorted(set([0, 1, cap, cap + 1, cap + 3])):
             for line, cls in (('newn %s %d 0' % (x, n), 'newn'), ('newv %s %d 9 0' % (x, n), 'newv'),
-                              ('newr %s fw 0 %s' % (x, vals(1, n)), 'newr-fw'), ('newr %s in 0 %s' % (x, vals(1, n)), 'newr-in')):
+                              ('newr %s fw 0 %s' % (x, vals(1, n)), 'newr-fw'), ('newr %s in 0 %s' % (x, vals(1, n)), 'newr-in'),
+                              ('newg %s 0 %s' % (x, vals(1, n)), 'newg'), ('newr %s ra 0 %s' % (x, vals(1, n)), 'newr-ra')):
                 fu = ['pb %s v5' % x, 'del %s' % x]
                 yield dict(cls=cls, state='none', lines=[line] + fu, test=0)
                 for k in range(MAX_FAULT):
@@ -204,7 +208,8 @@ def random_histories(N, M, seed, count, length=40):
                 others = [y for y in range(4) if y != x and size[y] is not None]
                 if r < 0.3 or not others:
                     n = rng.choice([0, 1, cap, cap + 1, cap + 3])
-                    line = rng.choice(['new %s 0' % nm, 'newn %s %d 0' % (nm, n), 'newv %s %d 7 0' % (nm, n), 'newr %s fw 0 %s' % (nm, vals(100 + step, n)), 'newr %s in 0 %s' % (nm, vals(100 + step, n))])
+                    line = rng.choice(['new %s 0' % nm, 'newn %s %d 0' % (nm, n), 'newv %s %d 7 0' % (nm, n), 'newr %s fw 0 %s' % (nm, vals(100 + step, n)), 'newr %s in 0 %s' % (nm, vals(100 + step, n)),
+                                       'newg %s 0 %s' % (nm, vals(100 + step, n))])
                     size[x] = 0 if line.startswith('new ') else n
                 else:
                     y = rng.choice(others)
@@ -241,12 +246,12 @@ def random_histories(N, M, seed, count, length=40):
                     line = rng.choice(['rsv %s %d' % (nm, rng.choice([0, s, s + 2, 2 * s + 3, cap + 1])), 'stf %s' % nm])
                 elif r < 0.80:
                     n = rng.choice([0, 1, s, s + 2, cap + 1])
-                    kind = rng.choice(['fw', 'in'])
+                    kind = rng.choice(['fw', 'in', 'ra'])
                     line = rng.choice(['asn %s %d %d' % (nm, n, v), 'asr %s %s %s' % (nm, kind, vals(v, n))])
                     size[x] = n
                 elif r < 0.86:
                     n = rng.choice([0, 1, 2, 5])
-                    line = 'app %s %s %s' % (nm, rng.choice(['fw', 'in']), vals(v, n))
+                    line = 'app %s %s %s' % (nm, rng.choice(['fw', 'in', 'ra']), vals(v, n))
                     size[x] = s + n
                 elif r < 0.97:
                     others = [y for y in range(4) if y != x and size[y] is not None]
@@ -302,6 +307,9 @@ def iter_fault_cases(N, M, tier):
         for kind in ('fw', 'in'):
             for k in range(0, 2 * n + 3):
                 yield dict(cls='iterfault:newr', state='none', lines=['newr %s %s 0 %s !%d' % (x, kind, vals(1, n), k), 'new %s 0' % x, 'pb %s v5' % x, 'del %s' % x], test=0, fault=('it', k))
+        # the generator constructor with a generator that throws at its k-th call, alone and after an element fault point
+        for k in range(0, n + 2):
+            yield dict(cls='iterfault:newg', state='none', lines=['newg %s 0 %s !%d' % (x, vals(1, n), k), 'new %s 0' % x, 'pb %s v5' % x, 'del %s' % x], test=0, fault=('it', k))
 
 
 def narrow_cases(N, M, ms, tier):
@@ -321,7 +329,8 @@ def narrow_cases(N, M, ms, tier):
         for n in sorted(set([1, room, room + 1, ms, ms + 1, 200, 255, 256, 300])):
             if n <= 0:
                 continue
-            ops += [('asr %s fw %s' % (x, vals(70, n)), 'asr-fw'), ('app %s fw %s' % (x, vals(70, n)), 'app-fw'), ('app %s in %s' % (x, vals(70, n)), 'app-in'),
+            ops += [('asr %s ra %s' % (x, vals(70, n)), 'asr-ra'), ('app %s ra %s' % (x, vals(70, n)), 'app-ra'), ('insr %s %d ra %s' % (x, s // 2, vals(70, n)), 'insr-ra'),
+                    ('asr %s fw %s' % (x, vals(70, n)), 'asr-fw'), ('app %s fw %s' % (x, vals(70, n)), 'app-fw'), ('app %s in %s' % (x, vals(70, n)), 'app-in'),
                     ('insr %s %d fw %s' % (x, s // 2, vals(70, n)), 'insr-fw'), ('insr %s %d fw %s' % (x, s, vals(70, n)), 'insr-fw-end'),
                     ('asr %s in %s' % (x, vals(70, n)), 'asr-in'), ('insr %s %d in %s' % (x, s // 2, vals(70, n)), 'insr-in'),
                     ('insr %s %d in %s' % (x, s, vals(70, n)), 'insr-in-end')]
@@ -335,7 +344,7 @@ def narrow_cases(N, M, ms, tier):
         for line, cls in (('newn %s %d 0' % (x, n), 'newn'), ('newv %s %d 9 0' % (x, n), 'newv')):
             yield dict(cls='narrow:' + cls, state='none', lines=[line, 'pb %s v5' % x, 'del %s' % x], test=0)
     for n in sorted(set([0, 1, N + 1, ms - 1, ms, ms + 1, 100, 200, 255, 256, 300])):
-        for line, cls in (('newr %s fw 0 %s' % (x, vals(1, n)), 'newr-fw'), ('newr %s in 0 %s' % (x, vals(1, n)), 'newr-in')):
+        for line, cls in (('newr %s fw 0 %s' % (x, vals(1, n)), 'newr-fw'), ('newr %s in 0 %s' % (x, vals(1, n)), 'newr-in'), ('newr %s ra 0 %s' % (x, vals(1, n)), 'newr-ra')):
             yield dict(cls='narrow:' + cls, state='none', lines=[line, 'pb %s v5' % x, 'del %s' % x], test=0)
     # copies / moves between containers at the limit
     for s in (ms - 1, ms):
